@@ -86,10 +86,18 @@ def _best_inds(ex, st, n):
     return (fresh_array((K,), 'int', 'best_l'), fresh_array((K,), 'int', 'best_c'))
 
 
+def _list_result(base):
+    def mk(ex, st, env):
+        a = fresh_array((z3.Int(fresh_name('n_' + base)),), 'int', base)
+        a.is_list = True          # a python list of ints: immutable here, truthy iff non-empty
+        return a
+    return mk
+
+
 def _positions_contract(op):
     return Contract(
         params={'best_inds': _best_inds, 'blank_ind': 'int'},
-        result=lambda ex, st, env: fresh_array((z3.Int(fresh_name('n_pos')),), 'int', 'positions'),
+        result=_list_result('positions'),
         ensures=['0 <= len(result) and len(result) <= ' + _NB,
                  'forall(lambda j: implies(0 <= j and j < len(result), 0 <= result[j] and result[j] < ' + _NB + ' and best_inds[1][result[j]] ' + op + ' blank_ind))',
                  'forall(lambda j, j2: implies(0 <= j and j < j2 and j2 < len(result), result[j] < result[j2]))',
@@ -452,6 +460,125 @@ CONTRACTS[(PATH, DEC + '__call__')] = Contract(
               'alive': _SZ + ['alive', 'nopinfPb', 'nopinfPnb'], 'nopinfPb': _SZ + ['nopinfPb', 'nopinfPnb'], 'nopinfPnb': _SZ + ['nopinfPb', 'nopinfPnb']})},
 )
 
+# ---------------------------------------------------------------------------------------------------
+# language-model bookkeeping (property C03, first clause): the LM is a family of uninterpreted functions
+
+LM_ADV = z3.Function('LM_advance', Val, z3.IntSort(), Val)            # state after reading one more symbol
+LM_LP = z3.Function('LM_logprob', Val, z3.IntSort(), z3.RealSort())    # score of a symbol in a state
+LM_EOS = z3.Function('LM_eos', Val, z3.RealSort())
+LM_H0 = z3.Const('LM_initial_state', Val)
+NLM = z3.Int('n_lm_symbols')
+
+
+def _lm_hook(ex, st, name, base, args, kwargs):
+    """ASSUMED contract of the language-model object: initial_h / log_probs / advance_h0 / eos_scores act item-wise on a batch of
+    states (no interaction between the items of a batch) and are deterministic functions of the state (and the symbol)"""
+    from pyvc.arrays import as_array
+    if name == 'initial_h':
+        ex.assumed.append('assumed LM contract: initial_h(1) returns one initial state')
+        return lib._new_buffer(st, ArrayVal((1,), lambda i: LM_H0, 'val'), 'h0')
+    if name == 'log_probs':
+        h = as_array(st, args[0])
+        ex.assumed.append('assumed LM contract: log_probs(h)[p, c] is a function of the state h[p] and the symbol c (item-wise), with one column per non-blank symbol')
+        return lib._new_buffer(st, ArrayVal((h.shape[0], NLM), lambda p, c: LM_LP(h.get(p), to_int(c)), 'real'), 'lm_preds')
+    if name == 'advance_h0':
+        cs, hs = as_array(st, args[0]), as_array(st, args[1])
+        ex.emit(st, 'shape', to_z3(s_eq(cs.shape[0], hs.shape[0])), None, 'advance_h0: one symbol per state')
+        ex.assumed.append('assumed LM contract: advance_h0(x, h)[p] is a function of the state h[p] and the symbol x[p] (item-wise)')
+        return lib._new_buffer(st, ArrayVal((hs.shape[0],), lambda p: LM_ADV(hs.get(p), to_int(cs.get(p))), 'val'), 'h_adv')
+    if name == 'eos_scores':
+        h = as_array(st, args[0])
+        ex.assumed.append('assumed LM contract: eos_scores(h)[p] is a function of the state h[p]')
+        return lib._new_buffer(st, ArrayVal((h.shape[0],), lambda p: LM_EOS(h.get(p)), 'real'), 'eos')
+    return _join_hook(ex, st, name, base, args, kwargs)
+
+
+def _ulm_result(ex, st, env):
+    from pyvc.arrays import as_array
+    n = to_int(as_array(st, env['best_inds_l'][1]).shape[0])
+    return (lib._new_buffer(st, fresh_array((n,), 'val', 'h_new'), 'h_new'),
+            lib._new_buffer(st, fresh_array((n, NLM), 'real', 'lm_preds_new'), 'lm_preds_new'))
+
+
+_NBL = 'len(best_inds_l[1])'
+CONTRACTS[(PATH, 'update_lm_things')] = Contract(
+    params={'lm': 'val', 'h_prev': 'nd1:val', 'lm_preds': 'nd2:real', 'best_inds_l': _best_inds, 'blank_ind': 'int'},
+    ghosts={'opaque_hook': _lm_hook, 'truthy_val': True}, result=_ulm_result,
+    theory=lambda ex, st: ({'LM_ADV': SpecFunc(lambda h, c: LM_ADV(h, to_int(c))), 'LM_LP': SpecFunc(lambda h, c: LM_LP(h, to_int(c))), 'NLM': NLM}, []),
+    requires=['lm_preds.shape[0] == len(h_prev)', 'lm_preds.shape[1] == NLM', 'NLM >= 0',
+              'forall(lambda i: implies(0 <= i and i < ' + _NBL + ', 0 <= best_inds_l[0][i] and best_inds_l[0][i] < len(h_prev)))'],
+    ensures=['len(result[0]) == ' + _NBL, 'result[1].shape[0] == ' + _NBL + ' and result[1].shape[1] == NLM',
+             # a new prefix gets the advanced state of its parent and that state's predictions ...
+             'forall(lambda i: implies(0 <= i and i < ' + _NBL + ' and best_inds_l[1][i] != blank_ind, '
+             'result[0][i] == LM_ADV(h_prev[best_inds_l[0][i]], best_inds_l[1][i])))',
+             'forall(lambda i, c: implies(0 <= i and i < ' + _NBL + ' and best_inds_l[1][i] != blank_ind and 0 <= c and c < NLM, '
+             'result[1][i, c] == LM_LP(LM_ADV(h_prev[best_inds_l[0][i]], best_inds_l[1][i]), c)))',
+             # ... a kept prefix keeps its state and predictions
+             'forall(lambda i: implies(0 <= i and i < ' + _NBL + ' and best_inds_l[1][i] == blank_ind, result[0][i] == h_prev[best_inds_l[0][i]]))',
+             'forall(lambda i, c: implies(0 <= i and i < ' + _NBL + ' and best_inds_l[1][i] == blank_ind and 0 <= c and c < NLM, '
+             'result[1][i, c] == lm_preds[best_inds_l[0][i], c]))'],
+)
+CONTRACTS[(PATH, 'update_lm_things')].public_ensures = list(CONTRACTS[(PATH, 'update_lm_things')].ensures)
+
+def lm_theory(ex, st):
+    """HSTATE(w): the LM state reached from the start state by reading w;  LMS(w): the LM's own score of w — the sum over the
+    symbols of w of (score of the symbol in the state reached before it + insertion bonus)"""
+    names, axioms = ctc_theory(ex, st)
+    SEQ = z3.SeqSort(z3.IntSort())
+    HS = z3.Function('LM_state_of', SEQ, Val)
+    LMSf = z3.Function('LM_score_of', SEQ, z3.RealSort())
+    bonus = ex.getattr(st.env['self'], '_insertion_bonus', st, None)
+    sq = lambda w: w.s if isinstance(w, SeqVal) else w
+    last = lambda ws: ws[z3.Length(ws) - 1]
+    init = lambda ws: z3.SubSeq(ws, 0, z3.Length(ws) - 1)
+
+    def hs_def(w):
+        ws = sq(w)
+        return z3.And(z3.Implies(z3.Length(ws) == 0, HS(ws) == LM_H0),
+                      z3.Implies(z3.Length(ws) >= 1, HS(ws) == LM_ADV(HS(init(ws)), last(ws))))
+
+    def lms_def(w):
+        ws = sq(w)
+        return z3.And(z3.Implies(z3.Length(ws) == 0, LMSf(ws) == 0),
+                      z3.Implies(z3.Length(ws) >= 1, LMSf(ws) == LMSf(init(ws)) + LM_LP(HS(init(ws)), last(ws)) + bonus))
+    names.update({'HSTATE': SpecFunc(lambda w: HS(sq(w)), 'HSTATE', defn=hs_def), 'LMS': SpecFunc(lambda w: LMSf(sq(w)), 'LMS', defn=lms_def),
+                  'LM_ADV': SpecFunc(lambda h, c: LM_ADV(h, to_int(c))), 'LM_LP': SpecFunc(lambda h, c: LM_LP(h, to_int(c))), 'LM_EOS': SpecFunc(lambda h: LM_EOS(h)), 'NLM': NLM})
+    return names, axioms
+
+
+import copy as _copy
+_base = CONTRACTS[(PATH, DEC + '__call__')]
+_lmc = _copy.copy(_base)
+_lmc.params = dict(_base.params, model_eos='bool', return_h='bool')
+_lmc.fields = dict(_base.fields, _insertion_bonus='real')
+_lmc.ghosts = dict(_base.ghosts, opaque_hook=_lm_hook)
+_lmc.inline = set()
+_lmc.theory = lm_theory
+_lmc.requires = ['self._lm is not None', 'NLM == logits.shape[1] - 1'] + [r for r in _base.requires if r != 'self._lm is None']
+_lmc.ensures = list(_base.ensures) + [
+    'len(Plm) == ' + _np,
+    # the LM score of every returned prefix is the LM's own score of it (+ the end-of-line score when requested), whatever the route
+    'forall(lambda p: implies(0 <= p and p < ' + _np + ', Plm[p] == LMS(prefixes[p]) + ite(model_eos, LM_EOS(HSTATE(prefixes[p])), 0)))',
+    'forall(lambda p: implies(0 <= p and p < ' + _np + ', h_prev[p] == HSTATE(prefixes[p])))',
+]
+_lmc.ghost_at = dict(_base.ghost_at)
+_lmc.ghost_at['idx_of_best = np.argmax('] = [
+    # the state handed on for the next line is the state of the hypothesis maximising visual score + scale * LM score
+    'assert 0 <= idx_of_best and idx_of_best < ' + _np,
+    'assert forall(lambda p: implies(0 <= p and p < ' + _np + ', Pom[p] + Plm[p] * self._lm_scale <= Pom[idx_of_best] + Plm[idx_of_best] * self._lm_scale))',
+    'assert h_prev[idx_of_best] == HSTATE(prefixes[idx_of_best])',
+]
+_l0 = _base.loops[0]
+_lmc.loops = {0: LoopSpec(counter='tt', inv=list(zip(_l0.inv_names, _l0.inv)) + [
+    ('lenPlm', 'len(Plm) == ' + _np), ('lenh', 'len(h_prev) == ' + _np),
+    ('shapelm', 'lm_preds.shape[0] == ' + _np + ' and lm_preds.shape[1] == NLM'),
+    ('hstate', 'forall(lambda p: implies(0 <= p and p < ' + _np + ', h_prev[p] == HSTATE(prefixes[p])))'),
+    ('lmpreds', 'forall(lambda p, c: implies(0 <= p and p < ' + _np + ' and 0 <= c and c < NLM, lm_preds[p, c] == LM_LP(h_prev[p], c)))'),
+    ('plm', 'forall(lambda p: implies(0 <= p and p < ' + _np + ', Plm[p] == LMS(prefixes[p])))')],
+    uses=dict(_l0.uses, hstate=_SZ + ['lenh', 'hstate'], lmpreds=_SZ + ['lenh', 'shapelm', 'lmpreds'],
+              plm=_SZ + ['lenPlm', 'lenh', 'shapelm', 'hstate', 'lmpreds', 'plm']))}
+CONTRACTS[(PATH, DEC + '__call__', 'lm')] = _lmc
+
 def _lad(names, sizes=(1, 2, 3)):
     return [dict((n, v) for n in names) for v in sizes]
 
@@ -472,5 +599,8 @@ _LADDERS = {
 for _k, _v in _LADDERS.items():
     CONTRACTS[(PATH, _k)].ladder = _v
 
-KEYS_ALL = None
-KEYS = [(PATH, k) for k in ('get_new_prefixes_positions', 'get_old_prefixes_positions', 'find_new_prefixes', 'find_matching', 'adjust_for_prefix_joining', DEC + '__call__', DEC + 'get_reduced_last_chars', 'get_continuation_mask', DEC + 'compute_Pb', DEC + 'compute_Pnb', DEC + 'compute_Plm', DEC + 'get_reduced_Pc')]
+KEYS = [(PATH, k) for k in ('get_new_prefixes_positions', 'get_old_prefixes_positions', 'find_new_prefixes', 'find_matching',
+                             'adjust_for_prefix_joining', DEC + '__call__', DEC + 'get_reduced_last_chars', 'get_continuation_mask',
+                             DEC + 'compute_Pb', DEC + 'compute_Pnb', DEC + 'get_reduced_Pc')]
+# language-model bookkeeping (C03)
+KEYS_LM = [(PATH, DEC + 'compute_Plm'), (PATH, 'update_lm_things'), (PATH, DEC + '__call__', 'lm')]
